@@ -389,7 +389,9 @@ pub fn run_readonly(bytes: &[u8]) -> Vec<(String, String)> {
     let mut dumps: Vec<Option<crate::refmodel::Dump>> = Vec::new();
     for strict in [false, true] {
         let r = guarded(|| -> Option<crate::refmodel::Dump> {
-            let mut l = match Live::open(bytes.to_vec(), strict) {
+            // the strict pass reads through the smallest stream buffer (1024 bytes: streams span several
+            // buffer windows), the permissive pass through the default one
+            let mut l = match Live::open_buf(bytes.to_vec(), strict, if strict { Some(1024) } else { None }) {
                 Ok(l) => l,
                 Err(e) => {
                     if e.contains("PANIC") {
@@ -430,7 +432,9 @@ pub fn run_readonly(bytes: &[u8]) -> Vec<(String, String)> {
                                     buf.extend_from_slice(&chunk[..k]);
                                 }
                                 if total > (bytes.len() as u64) * 4 + (1 << 20) {
-                                    break; // more data than the input could hold: stop, not a verdict here
+                                    // every sector belongs to at most one position of a validated chain, so a
+                                    // stream cannot hold more bytes than the file: the read loop does not end
+                                    std::panic::panic_any(format!("HANG: stream {:?} has returned {} bytes from a {}-byte input without reporting the end of the stream", p, total, bytes.len()));
                                 }
                             }
                             Err(_) => break,
